@@ -183,6 +183,17 @@ CLAIMS = {
             "threading.Lock as a binary semaphore; configuration 2+2; CPython reference load/store atomic; the rely/guarantee "
             "argument for the curve objects is checked only on the enumerated interleavings",
             "deductive: inductive invariant over an extracted transition system, z3; bounded interleaving enumeration"),
+    "C09": ("proof",
+            "contracts on the real EccEncryptor.__init__/encrypt, InitEccAuthBlock.pack/unpack, EccDecryptor.decrypt with the "
+            "ECC plug-in and AES adapter by contract: block = selector, 04, ephemeral public point, ENC(SHA256(DH)[:16], 0, "
+            "session key); recipient = the matching external encryptor's key, else the PUBLISHED key of that selector; the "
+            "four published keys (length, 27-byte header, on P-256) as ground obligations.  Independent ECIES (own P-256 "
+            "arithmetic + hashlib + own AES) opens blocks written by the real code for edge and random recipient scalars and "
+            "vice versa; the real unwrap refuses off-curve / out-of-range / zero points (bounded).  Agreement with the "
+            "OpenSSL binary is not a contract",
+            "DESIGN.md section 9 C09",
+            TB + "; DH symmetry taken from C17; the independent implementation is spec/ecmath.py + spec/aes197.py, not OpenSSL",
+            "deductive: AST->VC over ropes with callee contracts and ghost call logs, ground facts, z3; bounded independent ECIES"),
 }
 
 NA_DEFAULT = "check not built yet (construction in progress, see DESIGN.md section 14)"
